@@ -273,6 +273,47 @@ fn main() {
     let (cfg, _) = gen_client_cfg(&mut r, false, with_defaults);
     let sink = RecSink::new();
     let hlog = HandlerLog::default();
+    // threads that exist before the client is set; some of them try a macro too early (it must panic, and must
+    // not poison later use on that thread)
+    let late_set = !unset && args.flag("late-set");
+    let mut early_panics = 0u64;
+    let early_thread: Option<(std::sync::mpsc::Sender<()>, std::thread::JoinHandle<(bool, bool)>)> = if late_set {
+        let (tx, rx) = std::sync::mpsc::channel::<()>();
+        let (tried_tx, tried_rx) = std::sync::mpsc::channel::<()>();
+        let h = std::thread::spawn(move || {
+            let before = panics::guard(|| {
+                statsd_count!("too.early", 1);
+            })
+            .is_err();
+            let _ = tried_tx.send(()); // the main thread sets the client only after this attempt was made
+            let _ = rx.recv(); // wait until the client has been set
+            let after = panics::guard(|| {
+                statsd_gauge!("after.set.on.early.thread", 7u64, "t" => "early");
+            })
+            .is_ok();
+            (before, after)
+        });
+        let _ = tried_rx.recv();
+        Some((tx, h))
+    } else {
+        None
+    };
+    if late_set {
+        if panics::guard(|| {
+            statsd_count!("too.early.main", 1);
+        })
+        .is_err()
+        {
+            early_panics += 1;
+        }
+        if panics::guard(|| {
+            statsd_time!("too.early.main", 5u64, "a" => "b");
+        })
+        .is_err()
+        {
+            early_panics += 1;
+        }
+    }
     if !unset {
         let client = build_client(&cfg, sink.clone(), if handler { Some(hlog.clone()) } else { None });
         set_global_default(client);
@@ -281,11 +322,51 @@ fn main() {
     if is_global_default_set() == unset {
         cx.violation("panic-iff-unset", "is_global_default_set-wrong", format!("is_global_default_set() = {} in a process where the client was {}set", is_global_default_set(), if unset { "not " } else { "" }), Json::Null);
     }
+    if late_set {
+        cx.rep.obs("macros_tried_before_set", 2);
+        if early_panics != 2 {
+            cx.violation("panic-iff-unset", "no-panic-when-unset", format!("{} of 2 macro invocations made before set_global_default panicked", early_panics), Json::Null);
+        }
+        if let Some((tx, h)) = early_thread {
+            let before_emits = cx.sink.emit_count();
+            let _ = tx.send(());
+            match h.join() {
+                Ok((panicked_before, worked_after)) => {
+                    cx.rep.obs("threads_that_tried_a_macro_before_set", 1);
+                    if !panicked_before {
+                        cx.violation("panic-iff-unset", "no-panic-when-unset", "a macro invoked on another thread before set_global_default did not panic".into(), Json::Null);
+                    }
+                    if !worked_after || cx.sink.emit_count() != before_emits + 1 {
+                        cx.violation("panic-iff-unset", "panic-with-client-set", format!("a thread that had tried a macro before the client was set: macro after the set worked={} emits={}", worked_after, cx.sink.emit_count() - before_emits), Json::Null);
+                    }
+                }
+                Err(_) => cx.rep.inconclusive("early thread died"),
+            }
+            cx.sink.clear();
+            cx.hlog.clear();
+        }
+    }
     let rounds = args.u64("rounds", 3);
     for _ in 0..rounds {
         all_pairs(&mut cx, &mut r);
         if cx.rep.violation_count >= 8 {
             break;
+        }
+    }
+    // a macro on a thread spawned after the set
+    if !unset {
+        let before = cx.sink.emit_count();
+        let ok = std::thread::spawn(|| {
+            panics::guard(|| {
+                statsd_set!("from.new.thread", 4i64, "x" => "y");
+            })
+            .is_ok()
+        })
+        .join()
+        .unwrap_or(false);
+        cx.rep.obs("macros_on_fresh_threads", 1);
+        if !ok || cx.sink.emit_count() != before + 1 {
+            cx.violation("panic-iff-unset", "panic-with-client-set", "a macro on a thread spawned after set_global_default did not send".into(), Json::Null);
         }
     }
     // a second set must be ignored (the first client stays)
